@@ -22,7 +22,7 @@ PRODUCER_OPS = ['rank_transform', 'sqrt_transform', 'positive_transform', 'minma
                 'boot_noise_ceiling']
 
 
-def gen_family(rng, n_roots=(1, 3), n_cond=(2, 8), n_rdm=(1, 4)):
+def gen_family(rng, n_roots=(1, 3), n_cond=(2, 8), n_rdm=(1, 4), mixed_ok=True):
     nc = rng.randint(*n_cond)
     if n_cond == (2, 8) and rng.chance(0.08):
         nc = rng.randint(17, 26)       # beyond the sizes where sorts / look-ups switch algorithms
@@ -43,6 +43,7 @@ def gen_family(rng, n_roots=(1, 3), n_cond=(2, 8), n_rdm=(1, 4)):
     fneg = rng.chance(0.2)       # some negative dissimilarities (family-wide)
     fzero = rng.chance(0.15)     # some exact zeros between different conditions (family-wide)
     fnote = rng.chance(0.3)      # an rdm descriptor that only some of the root objects carry
+    fmixed = rng.chance(0.15) and mixed_ok
     fdtype = rng.pick(['float64', 'float64', 'float64', 'float64', 'int64', 'float32'])     # dtype of the stacks handed to the constructor
     finf = rng.chance(0.08) and fdtype != 'int64'      # some infinite dissimilarities (family-wide)
     styp = rng.pick(['str', 'str', 'int', 'bigint', 'tiny', 'vec'])     # object-level descriptor values incl. falsy ones ('' / 0), one type per family
@@ -75,6 +76,10 @@ def gen_family(rng, n_roots=(1, 3), n_cond=(2, 8), n_rdm=(1, 4)):
             spec['zeros'] = True
         if finf:
             spec['infs'] = True
+        if fmixed:
+            # a hand-kept list of labels of mixed types (run numbers and names): each item keeps its own value, type included
+            spec['rdm_desc']['mixed'] = {'values': [u if u % 2 else 'm%d' % u for u in ru], 'container': 'list'}
+            spec['pat_desc'] = {**spec['pat_desc'], 'mixed': {'values': [u if u % 2 else 'k%d' % u for u in cond_uids], 'container': 'list'}}
         if fnote and rng.chance(0.5):
             spec['rdm_desc']['note'] = {'values': ['n%d' % u for u in ru], 'container': rng.pick(['list', 'array'])}
         if rng.chance(0.25) and nc >= 4 and rdtype != 'int64':
@@ -680,7 +685,7 @@ class RdmsOps:
                     for b in order[i + 1:]:
                         if a not in pc or b not in pc:
                             missing.add((rr, min(a, b), max(a, b)))
-            sem = {'ru': ru, 'cu': order, 'missing': missing, 'dropped_keys': ('grp', 'extra', 'pos', 'xyz'),
+            sem = {'ru': ru, 'cu': order, 'missing': missing, 'dropped_keys': ('grp', 'extra', 'pos', 'xyz', 'mixed'),
                    'remap': src.sem.get('remap')}
         s = self.pool.add(res, 'rdms', sem, 'from_partials', [src.sid])
         self.pool.check_rdms(s, 'from_partials')
